@@ -278,7 +278,7 @@ func (route *baseRoute) delDestination(index int, extendConfig baseCfgExtender) 
 	route.Lock()
 	defer route.Unlock()
 	conf := route.config.Load().(Config)
-	if index >= len(conf.Dests()) {
+	if index < 0 || index >= len(conf.Dests()) {
 		return fmt.Errorf("Invalid index %d", index)
 	}
 	conf.Dests()[index].Shutdown()
@@ -295,6 +295,10 @@ func (route *baseRoute) DelDestination(index int) error {
 }
 
 func (route *ConsistentHashing) DelDestination(index int) error {
+	// the hash ring must not become empty: Dispatch picks a destination for every metric
+	if len(route.config.Load().(Config).Dests()) <= 1 {
+		return fmt.Errorf("cannot remove the last destination of consistentHashing route %q", route.key)
+	}
 	return route.delDestination(index, consistentHashingConfigExtender)
 }
 
